@@ -64,6 +64,14 @@ CHECKS = {
   text="Guard normal forms decide for every draw that Gaussian/TopHat values stay within their declared bounds; a small interval domain with float-aware modulo semantics decides that every programmed phase lies in [0, 2pi); structural rules decide that the mapped circuit consists of barriers, phase shifters and adjacent-mode beam splitters on a fresh circuit with heralds copied pairwise, that noise enters only through error-model accessors whose values pass the circuit's validators, and that seeding dominates every draw with per-distribution seeds derived from the call's seed and each distribution re-binding the generator it draws from. Correctness of the triangular decomposition (numerical) is not claimed.",
   note="Trusted: numpy Generator.random in [0,1); np.angle in (-pi, pi]; float `%` by a positive modulus lies in [0, m] (m itself attainable for tiny negative operands).",
   tech=TECH + "comparison normal form incl. loop-exit clauses, abstract interval evaluation of phase expressions, CFG dominance of seeding, effect/structure checks", ref="DESIGN.md §3 R-E, R-J, R-I; §4 C14"),
+ "C13": dict(
+  text="The 14 single-qubit gate literals are folded from source text into polynomials in cos(theta/2), sin(theta/2) and proved, as identities of normal forms (i.e. for every rotation angle), to be unit-modulus multiples of the named textbook matrices; CNOT / CNOT_Heralded / CCNOT are shown to be H - CZ-type gate - H on one and the same target expression with invalid targets refused first; SWAP exchanges equal rails. The CZ / CZ_Heralded / CCZ matrices, herald placements and success probabilities (1/9, 1/16, 1/72) need permanents of the folded matrices and are NOT decided.",
+  note="Trusted: the reference matrices (textbook / qiskit conventions) in rk_tables.py; Unitary(M) implements M (C01).",
+  tech=TECH + "constant folding of closed literals + polynomial normal forms (decision for all angles), structural def-use check of the conjugation", ref="DESIGN.md §3 R-K, K-poly; §4 C13"),
+ "C12": dict(
+  text="Registry agreement (qiskit name -> gate class against a frozen name table, classes themselves verified for every angle by the C13 folding), post-selected classes confined to the post-selection tables selected only under `post_selection`, ALLOWED_GATES = union of registries, unsupported gates refused before dispatch (CFG dominance), dispatch chains total (end in raise), three-qubit refusals dominate construction, swap conjugation symmetric. Placement/plumbing idioms are recognised, and if rewritten the check answers ANALYSIS-ERROR rather than a verdict. Unitary equivalence of the converted circuit - in particular the post-selection analysis - is NOT decided.",
+  note="Trusted: qiskit gate names/conventions; C13 for the meaning of gate classes.",
+  tech=TECH + "table agreement, constant/polynomial folding, CFG guard dominance, dispatch totality", ref="DESIGN.md §3 R-K, R-H4, R-D; §4 C12"),
 }
 NA = {}
 
